@@ -789,6 +789,32 @@ class Gen:
                 d.stream(ST["memory64"], d.u64(3, data) + d.u64(base, 32) + d.u64((base + 32) % T64, 0) + d.u64((base + 31) % T64, 32))
                 self.dump("query_edge_product", d.finish())
 
+    # ------------------------------------------------------------- round 4: every location descriptor -> in-bounds blob with boundary-valued words
+    def location_content_product(self):
+        """Each record kind that carries a MINIDUMP_LOCATION_DESCRIPTOR (thread stack, thread context, module CodeView record,
+        module misc record, exception context, memory descriptor, unloaded/handle names are RVAs) points at the SAME in-bounds blob;
+        blob size x which of its first words is hostile x boundary value (relative to the blob size and the file)."""
+        for be in (False, True):
+            for size in (1, 4, 12, 13, 16, 28, 64, 256):
+                words = min(4, size // 4)
+                for w in range(max(1, words)):
+                    for v in (0, 1, 4, 11, 12, 13, size - 1, size, size + 1, 0xffff, 0x7fffffff, 0x80000000, 0xfffffffe, 0xffffffff):
+                        d = Dump(be, ndir=5)
+                        blob = bytearray((0x21 + 3 * i) & 0x7f for i in range(size))
+                        if words:
+                            blob[4 * w:4 * w + 4] = d.u32(v)
+                        if size >= 16 and w != 0 and v % 3 == 0:
+                            blob[0:4] = d.u32([0x53445352, 0x3031424e, 0x4270454c, 1, 4][v % 5])   # CodeView signatures / misc data types
+                        at = d.add(bytes(blob))
+                        name = d.utf16("m.dll")
+                        loc = (size, at)
+                        d.stream(ST["system_info"], d.sysinfo([0, 9, 12, 5][(w + v) % 4]))
+                        d.stream(ST["thread_list"], d.list([d.thread(1, (0x7000, size, at), loc, teb=0x7000 - 52)]))
+                        d.stream(ST["module_list"], d.list([d.module(0x400000, 0x1000, name, loc, loc), d.module(0x500000, 0x1000, name, (0, 0), loc)]))
+                        d.stream(ST["memory_list"], d.list([d.u64(0x7000) + d.u32(size, at)]))
+                        d.stream(ST["exception"], d.exception(1, ctx=loc))
+                        self.dump("location_content_product", d.finish())
+
     # ------------------------------------------------------------- base dumps from minidump-synth and /repo/testdata
     def synth_and_samples(self, per_synth, per_sample):
         rng = self.rng
@@ -847,7 +873,10 @@ class C01(PropBase):
     trusted_base = [
         "Coq 8.16.1 kernel; vm_compute only in witnesses (c01_*_refuted) and non-vacuity examples",
         "hand-written model C01/Model.v of minidump.rs's list/string/directory/handle/exception machinery and of scroll 0.12's Pread bounds rule; "
-        "tied to the code by the correspondence run (23 fields per case + the largest ledger entry as a lower bound of the measured peak request)",
+        "tied to the code by the correspondence run (33 fields per case + the largest ledger entry as a lower bound of the measured peak request)",
+        "translate/c01_sites.py (regex/brace-level scan of the Rust source, not a Rust parser): finds the trap/loop/allocation/guard sites by their surface syntax; "
+        "a panic hidden behind a method call it does not know (a new helper crate, an operator trait) is not a site; the classification of coq/C01/Sites.v "
+        "(Covered/Safe/Searched) is a reviewed table, per function and kind, not a line-by-line refinement proof",
         "in-memory element sizes (size_of) in the ledger are compared with the harness's SIZES line on every run",
         "extraction: ExtrOcamlBasic only; ocaml/zconv.ml + ocaml/c01/main.ml; harness/src/bin/c01.rs with its counting global allocator and watchdog",
         "the model runs profile Debug; Release differs only where a chk_* site would wrap, which c01_no_panic excludes",
@@ -869,10 +898,17 @@ class C01(PropBase):
                 "(c01_*_unfixed_refuted: F-C01a..d). The rest of the property lives in the runtime and is searched, not proved: a harness with a counting "
                 "global allocator and a watchdog opens each case, requests all 24 stream types, runs every accessor and print routine, and an oracle "
                 "requires no panic, termination and a largest single allocation <= max(64 KiB, 16*len); the extracted model must agree with the real "
-                "reader on 23 observables per case.",
+                "reader on 33 observables per case. Round 4: the queries on a parsed dump are modelled and proved for both profiles (memory_range of regions / memory info / "
+                "modules: c01_memory_range_sound; MinidumpThread::last_error address arithmetic: c01_last_error_in_bounds; get_crash_address: c01_crash_address_total; "
+                "ELF debug id padding: c01_elf_debug_id_reads; the four compared query fields: c01_crash_queries_total). A source scan lists every index / unwrap / "
+                "panic macro / unchecked arithmetic / division / integer cast / allocation / copy / unsafe / loop / inequality / guard site of minidump/src and "
+                "minidump-common/src (971 sites in 322 groups); c01_sites_pinned proves the scanned list equal (count and digest per function and kind) to the reviewed "
+                "table C01/Sites.v and c01_sites_classified that every group is covered by a named theorem, safe for a stated reason, or searched by a named harness step - "
+                "a new or edited site, or a removed guard, breaks that obligation before any failing input is needed.",
         "note": "Trusted: Coq kernel; hand-written model (correspondence-checked on every run, not verified against the Rust source); scroll's Pread "
-                "bounds rule as read from its source; extraction + OCaml/Rust glue; the counting allocator. Not covered by theorem: contents of streams "
-                "outside the list machinery, all printers (incl. MinidumpContext::print), encoding_rs/time, C08's range maps. No axioms.",
+                "bounds rule as read from its source; extraction + OCaml/Rust glue; the counting allocator. Not covered by theorem: the groups classified "
+                "Searched in C01/Sites.v (CrashReason tables and Display, most printer bodies, context register access, system-info formatting, procfs maps), "
+                "encoding_rs/time, C08's range maps. The site scan is syntactic (regex over blanked source), its classification a reviewed table. No axioms.",
     }
 
     def gen_cases(self, tier, seed):
@@ -892,6 +928,7 @@ class C01(PropBase):
         g.round2(400 if q else 5000)
         g.round3()
         g.round4(1500 if q else 24000)
+        g.location_content_product()
         g.synth_and_samples(700 if q else 8000, 160 if q else 2500)
         g.random_bytes(200 if q else 3000)
         # the runner shards the case list into NCPU contiguous ranges: deal the cases round-robin so that every shard gets the
